@@ -47,6 +47,9 @@ func runC17(p *core.Program, r *core.Report) {
 	// package has - the previous run's output is part of that method set (C04.R3; the own-output override is the one
 	// accepted idiom)
 	chainRules(p, r, "R16", "C04", []string{"C04.R3"}, "no generator decision depends on the method set of a type of the processed package")
+	// round 8: tags of one declaration do not leak into the next; the type table holds package-level objects only
+	chainRules(p, r, "R17", "C06", []string{"C06.R3"}, "effective tags are merged into a fresh map per declaration")
+	chainRules(p, r, "R18", "C13", []string{"C13.R1"}, "the type table holds package-level objects only")
 }
 
 // c17R8: on-demand generation of same-package dependencies.
